@@ -96,17 +96,11 @@ package conn
 //@ func signChallenge
 //@   assigns nothing
 
-// (Package types is not a dependency of this package, so the signature predicate is declared here under its own name.)
-//@ spec func keySigned(pk crypto.PubKey, msg []byte, sig []byte) bool
-//@ extern crypto.PubKey.VerifySignature
-//@   assigns nothing
-//@   ensures det: result == keySigned(self, msg, sig)
-
 // remoteProved(pk, challenge, sig): the remote key's signature over the session challenge verified.
 // A connection is returned only if the key the remote presented signed THIS session's challenge (the 32 bytes extracted
 // from the transcript of both ephemeral keys and the shared secret), and that key - no other - becomes RemotePubKey.
 //@ func MakeSecretConnection
-//@   ensures authenticated: result1 == nil ==> (result0 != nil && result0.remPubKey == remPubKey && keySigned(remPubKey, challenge[:], remSignature))
+//@   ensures authenticated: result1 == nil ==> (result0 != nil && result0.remPubKey == remPubKey && sigOK(remPubKey, challenge[:], remSignature))
 //@   atcall Transcript.ExtractBytes bound: true
 
 // ---- C17: multiplexed connection - packetisation and reassembly of one channel ----
